@@ -79,7 +79,7 @@ CHECKS = {
         'text': 'Every index, slice, get_u8/u32/u64, split_to, advance, expect, arithmetic operation and recursion/loop measure in the byte-reachable synchronous code is a Verus obligation under no precondition but the representation invariant; '
                 'allocation is bounded through a ghost counter on BytesMut::reserve; parsers Verus cannot read are covered by Kani (complete or bounded as labelled).',
         'design_ref': 'DESIGN.md 4 (C03)',
-        'note': 'Covers decode, greeting/command/identity/socket-type parsers, the handshake decision code and the PUB/XPUB subscription-message parsers. Not covered: panics in other spawned-task code, "other connections keep working". Assumed specs of bytes carry the real panic conditions.',
+        'note': 'Covers decode, greeting/command/identity/socket-type parsers, the handshake decision code, the PUB/XPUB subscription-message parsers and the recv function of every socket type (what it does with the items decoded from a peer). Not covered: panics in other spawned-task code, "other connections keep working". Assumed specs of bytes carry the real panic conditions.',
         'technique': 'Verus panic-freedom / termination / allocation-bound obligations on extracted code; Kani for three parsers',
     },
 }
